@@ -94,16 +94,17 @@ Theorem C06_timeout_returns_error_alone :
 Proof. exact timeout_alone_returns_error. Qed.
 Print Assumptions C06_timeout_returns_error_alone.
 
-(** every Close call returns - the part that is proved: in every reachable state some Close
-    call can move whenever one has not returned (the lock holder is never blocked), and each
-    call takes at most six steps of its own.  _partial: that the scheduler eventually runs the
+(** every Close call returns - the part that is proved: in every reachable state, with any number of
+    RunHandlers calls competing for handlersLock, some lock user (a Close call, or the RunHandlers call
+    that holds handlersLock) can move whenever a Close call has not returned - there is no lock-order
+    cycle between closedLock and handlersLock - and each call takes at most seven steps of its own.  _partial: that the scheduler eventually runs the
     enabled closer (fairness) is assumed, not proved - that is all that is missing: what can
     keep the wait from ending without the timeout is characterised completely by
     [C06_close_waits_only_for_handlers_or_blocked_subscriber] below. *)
 Theorem C06_every_close_returns_partial :
   (forall n hon f5 f6 f12 sched c,
      let s := exec (init n hon f5 f6 f12) sched in
-     cp s c <> CNone -> (forall r, cp s c <> CRet r) -> exists c', closer_can_move s c') /\
+     cp s c <> CNone -> (forall r, cp s c <> CRet r) -> lock_user_can_move s) /\
   (forall s l s' c, step s l = Some s' ->
      (own_label l c = true -> crank (cp s' c) < crank (cp s c)) /\
      (own_label l c = false -> cp s' c = cp s c)).
@@ -228,3 +229,15 @@ Example C06_unstarted_handler_fixed_example :
   | None => false
   end = true.
 Proof. exact d16_fixed_returns_nil. Qed.
+
+(** sensitivity of the no-deadlock part: in the variant where RunHandlers asks IsClosed() (closedLock)
+    while it holds handlersLock, an overlapping Close and RunHandlers block each other for ever *)
+Theorem C06_every_close_returns_refuted_if_runhandlers_takes_closedlock :
+  match replay (init_rh_isclosed 1 ignore_ctx) rh_deadlock_schedule with
+  | Some s => match cp s 0 with CHWant => true | _ => false end && match rp s 0 with RHCWant => true | _ => false end &&
+              negb (enabled s (LClose 0)) && negb (enabled s (LTimeout 0)) && negb (enabled s (LRh 0)) &&
+              match sys_enabled s 1 with [LHcClosing 0] | [] => true | _ => false end
+  | None => false
+  end = true.
+Proof. exact rh_isclosed_deadlock_witness. Qed.
+Print Assumptions C06_every_close_returns_refuted_if_runhandlers_takes_closedlock.
